@@ -32,6 +32,7 @@ fixed('C02', 'b0251cf', 'same defect seen as language loss: the merged levels we
 
 finding('C15', 'final-markov-preterminal', 'quit inside the Markov level of the FINAL pre-terminal of the run: queue is empty afterwards, the "Done" path returns without saving, --load restarts the session from the beginning (F-C15b)', {'ruleset': 'base structures D1/M/O1 where the least probable pre-terminal is an OMEN level', 'cut': 'any j inside that level'}, 'F-C15b')
 
+finding('C12', 'final-markov-preterminal', 'same defect as F-C15b seen from C12: an explicit quit that lands inside the Markov level of the final pre-terminal stops the run without the session state being saved', {'schedule': 'q delivered (or its flag set) while the last pre-terminal, an OMEN level, is being generated'}, 'F-C15b')
 finding('C05', 'len-changing-lower', 'password containing U+0130 (the only character whose lower() is longer than itself): e-mail / website / alpha detectors index the original string with offsets computed on the lower-cased copy -> empty or mis-aligned segments, wrong length labels, bogus multi-word splits (F-C05)', {'password': '\u0130@a.comx', 'segments': "[('\u0130@a.com','E'),('','O0')]"}, 'F-C05')
 finding('C05', 'keyboard-walk-recursion-depth', 'password made of ~1000 separate keyboard walks: detect_keyboard_walk recurses once per walk and overflows the interpreter stack -> RecursionError aborts parsing (F-C05b); only the thorough tier generates such input', {'password': "'1qaz2wsx3edc4rfv' * 250"}, 'F-C05b')
 
